@@ -1,15 +1,17 @@
 (* C14/Run.v — S-expression front end of the model, extracted to OCaml.
    requests:
-     (play (b ...) (step ...))    closers flags, script            -> (ok (taken ...) (hist ...) (calls ...) (pending ...) ...)
+     (wplay c0 (b ...) (((idbyte ...) step) ...) (item ...))   byte-level: item = (l step) (chunk (b ...)) (eof) (collect) (cleanall)
+     (play c0 (b ...) (step ...))    is_open before connect, closers flags, script            -> (ok (taken ...) (hist ...) (calls ...) (pending ...) ...)
      (srv (o ...))                o = val unpicklable fn klong keyerror ordinary stopiter base   -> (ok (served ...) (indomain ...))
-         step = (invoke k) (reg k) (sched k) (send k) (complete k) (resp k ok) (push ok) (closereq) (cut) (reset)
+         step = (connect ok) (invoke k) (reg k) (sched k) (send k) (complete k) (resp k ok) (push ok) (closereq) (cut) (reset)
                 (clean) (cleanall) (collect)
          a step that is not enabled is dropped (taken = 0)
      (check n (event ...))        the verified checker on an observed history -> (ok (check b) (prefix b))
    The model follows the flags regenerated from /repo (Generated.v). *)
 From Coq Require Import ZArith List String Bool PeanoNat.
 From KB Require Import Sx.
-From C14 Require Import Generated Model ServerModel Spec.
+From C13 Require Model.
+From C14 Require Import Generated Model ServerModel Wire Spec.
 Import ListNotations.
 
 Definition gen_flags : flags := mkFlags cleanup_iterates_snapshot finally_clears_writer.
@@ -34,7 +36,8 @@ Definition parse_step (x : sx) : option sstep :=
       if is_tag "sched" t then Some (SLab (ASchedule (z2n k))) else
       if is_tag "send" t then Some (SLab (ASend (z2n k))) else
       if is_tag "complete" t then Some (SLab (AComplete (z2n k))) else
-      if is_tag "push" t then Some (SLab (APush (z2b k))) else None
+      if is_tag "push" t then Some (SLab (APush (z2b k))) else
+      if is_tag "connect" t then Some (SLab (AConnect (z2b k))) else None
   | SL [SS t; SZ k; SZ ok] =>
       if is_tag "resp" t then Some (SLab (AResp (z2n k) (z2b ok))) else None
   | _ => None
@@ -84,10 +87,12 @@ Fixpoint play (s : state) (ss : list sstep) : state * list event * list bool :=
   end.
 
 Definition sx_exn (e : exn) : sx :=
-  match e with XNotEst => sx_w "notest" | XAttr => sx_w "attr" | XConnFail => sx_w "connfail" | XCloseConn => sx_w "closeconn" | XOther => sx_w "other" end.
+  match e with XNotEst => sx_w "notest" | XAttr => sx_w "attr" | XConnFail => sx_w "connfail" | XCloseConn => sx_w "closeconn"
+             | XCreateConn => sx_w "createconn" | XOther => sx_w "other" end.
 Definition sx_body (b : body) : sx := match b with BVal z => SL [sx_w "v"; SZ z] | BClose => sx_w "close" end.
 Definition sx_event (e : event) : sx :=
   match e with
+  | EConnected => SL [sx_w "connected"]
   | ECall k => SL [sx_w "call"; sx_nat k]
   | ESent k => SL [sx_w "sent"; sx_nat k]
   | EResp k b => SL [sx_w "resp"; sx_nat k; sx_body b]
@@ -104,11 +109,12 @@ Definition sx_pc (p : pc) : sx :=
   | PAwait => sx_w "await" | PDone r => SL [sx_w "done"; sx_result r]
   end.
 Definition sx_lst (l : lstate) : sx :=
-  match l with LRun => sx_w "run" | LClean _ i d => SL [sx_w "clean"; sx_nat i; sx_bool d] | LExit => sx_w "exit" | LCrash => sx_w "crash" end.
+  match l with LInit => sx_w "init" | LRun => sx_w "run" | LClean _ i d => SL [sx_w "clean"; sx_nat i; sx_bool d] | LExit => sx_w "exit" | LCrash => sx_w "crash" end.
 
 Definition parse_exn (t : list Z) : option exn :=
   if is_tag "notest" t then Some XNotEst else if is_tag "attr" t then Some XAttr else
-  if is_tag "connfail" t then Some XConnFail else if is_tag "closeconn" t then Some XCloseConn else if is_tag "other" t then Some XOther else None.
+  if is_tag "connfail" t then Some XConnFail else if is_tag "closeconn" t then Some XCloseConn else
+  if is_tag "createconn" t then Some XCreateConn else if is_tag "other" t then Some XOther else None.
 Definition parse_body (x : sx) : option body :=
   match x with
   | SL [SS t; SZ z] => if is_tag "v" t then Some (BVal z) else None
@@ -117,7 +123,7 @@ Definition parse_body (x : sx) : option body :=
   end.
 Definition parse_event (x : sx) : option event :=
   match x with
-  | SL [SS t] => if is_tag "loss" t then Some ELoss else None
+  | SL [SS t] => if is_tag "loss" t then Some ELoss else if is_tag "connected" t then Some EConnected else None
   | SL [SS t; SZ k] =>
       if is_tag "call" t then Some (ECall (z2n k)) else
       if is_tag "sent" t then Some (ESent (z2n k)) else
@@ -132,6 +138,71 @@ Fixpoint parse_events (l : list sx) : option (list event) :=
   match l with
   | [] => Some []
   | x :: r => match parse_event x, parse_events r with Some e, Some es => Some (e :: es) | _, _ => None end
+  end.
+
+Definition report (s : state) (h : list event) (taken : list bool) : sx :=
+  let n := List.length (calls s) in
+  SL [sx_w "ok";
+      SL (sx_w "taken" :: map sx_bool taken);
+      SL (sx_w "hist" :: map sx_event h);
+      SL (sx_w "calls" :: map (fun c => sx_pc (c_pc c)) (calls s));
+      SL (sx_w "pending" :: map sx_nat (pending s));
+      SL [sx_w "lst"; sx_lst (lst s)];
+      SL [sx_w "writer"; sx_bool (writer s)];
+      SL [sx_w "copen"; sx_bool (copen s)];
+      SL [sx_w "running"; sx_bool (running s)];
+      SL [sx_w "check"; sx_bool (check_history n h)];
+      SL [sx_w "prefix"; sx_bool (check_prefix n h)];
+      SL [sx_w "quiescent"; sx_bool (quiescent gen_flags s)]].
+
+(* ---- byte-level play: the chunks actually fed to the real StreamReader, decoded by C13's reader model *)
+Inductive wsstep := WI (i : witem) | WCollect | WCleanAll.
+
+Definition parse_wstep (x : sx) : option wsstep :=
+  match x with
+  | SL [SS t] =>
+      if is_tag "eof" t then Some (WI WEof) else
+      if is_tag "collect" t then Some WCollect else
+      if is_tag "cleanall" t then Some WCleanAll else None
+  | SL [SS t; y] =>
+      if is_tag "l" t then match parse_step y with Some (SLab a) => Some (WI (WLab a)) | _ => None end else
+      if is_tag "chunk" t then option_map (fun c => WI (WChunk c)) (sx_as_zs y) else None
+  | _ => None
+  end.
+Fixpoint parse_wsteps (l : list sx) : option (list wsstep) :=
+  match l with
+  | [] => Some []
+  | x :: r => match parse_wstep x, parse_wsteps r with Some s, Some ss => Some (s :: ss) | _, _ => None end
+  end.
+
+(* id bytes -> which _listen iteration a frame with that id is; an id nobody registered is a server push *)
+Fixpoint parse_table (l : list sx) : option (list (list Z * label)) :=
+  match l with
+  | [] => Some []
+  | SL [ids; st] :: r =>
+      match sx_as_zs ids, parse_step st, parse_table r with
+      | Some i, Some (SLab a), Some t => Some ((i, a) :: t)
+      | _, _, _ => None
+      end
+  | _ => None
+  end.
+Fixpoint lookup_lab (t : list (list Z * label)) (i : list Z) : label :=
+  match t with
+  | [] => APush true
+  | (j, a) :: r => if zlist_eqb i j then a else lookup_lab r i
+  end.
+
+Fixpoint wplay (lab : wmsg -> label) (w : wstate) (ss : list wsstep) : wstate * list event :=
+  match ss with
+  | [] => (w, [])
+  | x :: r =>
+      let '(w1, e1) :=
+        match x with
+        | WI i => wstep gen_flags lab w i
+        | WCollect => let '(s', e) := collect (w_s w) in (mkW s' (w_d w) (w_eof w), e)
+        | WCleanAll => let '(s', e) := clean_all (S (S (List.length (pending (w_s w))))) (w_s w) in (mkW s' (w_d w) (w_eof w), e)
+        end in
+      let '(w2, e2) := wplay lab w1 r in (w2, e1 ++ e2)
   end.
 
 Definition gen_sflags : sflags := mkSFlags server_wraps_generic_errors server_wraps_keyerror.
@@ -170,26 +241,21 @@ Definition dispatch (x : sx) : sx :=
         | None => sx_err "srv"
         end
       else sx_err "op"
-  | SL [SS t; SL a; SL b] =>
+  | SL [SS t; SZ c0; SL a; SL b] =>
       if is_tag "play" t then
         match sx_get_zs a, parse_steps b with
         | Some cl, Some ss =>
-            let s0 := init (map z2b cl) in
-            let '(s, h, taken) := play s0 ss in
-            let n := List.length (calls s) in
-            SL [sx_w "ok";
-                SL (sx_w "taken" :: map sx_bool taken);
-                SL (sx_w "hist" :: map sx_event h);
-                SL (sx_w "calls" :: map (fun c => sx_pc (c_pc c)) (calls s));
-                SL (sx_w "pending" :: map sx_nat (pending s));
-                SL [sx_w "lst"; sx_lst (lst s)];
-                SL [sx_w "writer"; sx_bool (writer s)];
-                SL [sx_w "copen"; sx_bool (copen s)];
-                SL [sx_w "running"; sx_bool (running s)];
-                SL [sx_w "check"; sx_bool (check_history n h)];
-                SL [sx_w "prefix"; sx_bool (check_prefix n h)];
-                SL [sx_w "quiescent"; sx_bool (quiescent gen_flags s)]]
+            let '(s, h, taken) := play (init (z2b c0) (map z2b cl)) ss in report s h taken
         | _, _ => sx_err "play"
+        end
+      else sx_err "op"
+  | SL [SS t; SZ c0; SL a; SL tb; SL b] =>
+      if is_tag "wplay" t then
+        match sx_get_zs a, parse_table tb, parse_wsteps b with
+        | Some cl, Some tab, Some ss =>
+            let '(w, h) := wplay (fun m => lookup_lab tab (fst m)) (w_init (init (z2b c0) (map z2b cl))) ss in
+            report (w_s w) h []
+        | _, _, _ => sx_err "wplay"
         end
       else sx_err "op"
   | SL [SS t; SZ n; SL evs] =>
